@@ -7,7 +7,8 @@
    results (Oracle/JudgeModes.v), without model or specification, except for the adjacency test, which
    uses the specification to decide that no representable value lies between floor and ceiling. *)
 From Coq Require Import ZArith Bool.
-From Apd Require Import Generated.Consts Model.Base Model.NumDigits Spec.SpecZ Proofs.RoundBasics Proofs.ModesProofs.
+From Coq Require Import Reals.
+From Apd Require Import Generated.Consts Model.Base Model.NumDigits Spec.SpecZ Spec.SpecR Proofs.RoundBasics Proofs.ModesProofs Proofs.ModesR.
 Open Scope Z_scope.
 
 Theorem C20_floor_le_every_mode_le_ceiling mode ng n k : 0 <= n -> 0 < k ->
@@ -49,3 +50,31 @@ Print Assumptions C20_rounding_monotone.
 
 Example C20_example : (rndZ RFloor true 15 10, rndZ RCeiling true 15 10, rndZ RHalfEven true 15 10, rndZ R05Up false 101 10) = (2, 1, 2, 11).
 Proof. vm_compute. reflexivity. Qed.
+
+(* ---------- whole results (not just the integer rounding step) ----------
+   For ONE exact value E and ONE context, the specification's results under RoundFloor, any mode and
+   RoundCeiling - the results the model's operations are proven to return (C01: op_post) - are ordered as real
+   numbers, every mode returns the Floor or the Ceiling result, and overflow to infinity is monotone.  Proven
+   through Spec-R: round radix10 (FLT_exp Etiny Precision) with Flocq's round-down / round-up theory. *)
+Theorem C20_context_rounding_floor_le_mode_le_ceiling p emin_ m x : (1 <= p)%Z ->
+  (round_ctx p emin_ RFloor x <= round_ctx p emin_ m x <= round_ctx p emin_ RCeiling x)%R /\
+  (round_ctx p emin_ m x = round_ctx p emin_ RFloor x \/ round_ctx p emin_ m x = round_ctx p emin_ RCeiling x).
+Proof. intros Hp. split; [exact (modes_bracket_R p emin_ Hp m x)|exact (modes_one_of_two_R p emin_ m x)]. Qed.
+Print Assumptions C20_context_rounding_floor_le_mode_le_ceiling.
+
+Theorem C20_results_of_one_exact_value_bracket p emin_ emax_ m (E : exact) : (1 <= p)%Z -> (0 < xnum E)%Z -> (0 < xden E)%Z ->
+  let SF := spec_round_nz p emin_ emax_ RFloor E in
+  let SM := spec_round_nz p emin_ emax_ m E in
+  let SC := spec_round_nz p emin_ emax_ RCeiling E in
+  (forall f v c, sres_R (s_res SF) = Some f -> sres_R (s_res SM) = Some v -> sres_R (s_res SC) = Some c ->
+     s_overflow SF = false -> s_overflow SM = false -> s_overflow SC = false -> (f <= v <= c)%R) /\
+  (xneg E = false -> (s_overflow SF = true -> s_overflow SM = true) /\ (s_overflow SM = true -> s_overflow SC = true)) /\
+  (xneg E = true -> (s_overflow SC = true -> s_overflow SM = true) /\ (s_overflow SM = true -> s_overflow SF = true)).
+Proof. exact (spec_results_bracket p emin_ emax_ m E). Qed.
+Print Assumptions C20_results_of_one_exact_value_bracket.
+
+(* Round is monotone across the whole line, subnormal range included (Round05Up: on one binade, above) *)
+Theorem C20_context_rounding_monotone p emin_ m x y : (1 <= p)%Z -> m <> R05Up -> (x <= y)%R ->
+  (round_ctx p emin_ m x <= round_ctx p emin_ m y)%R.
+Proof. exact (round_ctx_monotone p emin_ m x y). Qed.
+Print Assumptions C20_context_rounding_monotone.
